@@ -112,6 +112,44 @@ def batch_job(job):
                     close = abs(num.frac(x) - num.frac(xs_)) <= 4 * tol_eff * max(Fraction(1), abs(num.frac(x)))
                 rec["agree"] = bool(same_flag and close)
             out.append(rec)
+    # brackets that are ALREADY narrower than the tolerance when the call is made (what a first call leaves behind, fed back): they
+    # still straddle the sign change, so the contract is the same - a point within tolerance of it, success reported - although no
+    # iteration is needed and |f| at the ends may be far above the tolerance (jumps, steep crossings)
+    for k, c in enumerate(cases):
+        if not (c["signChange"] and len(c["changes"]) == 1 and c["kind"] in ("jump", "poly")):
+            continue
+        r8 = c["changes"][0]
+        r = np.asarray(r8 / 8.0, dtype=dt)
+        delta = max(float(tol_eff) * max(1.0, abs(float(r))) / 4.0, 4.0 * float(np.spacing(np.abs(r) + np.asarray(0, dtype=dt))))
+        a, b = np.asarray(r - np.asarray(delta, dtype=dt), dtype=dt), np.asarray(r + np.asarray(delta, dtype=dt), dtype=dt)
+        if not (num.frac(a) < Fraction(r8, 8) < num.frac(b)):
+            continue
+        if (k + int(abs(r8))) % 2:
+            a, b = b, a
+        f = fs[k]
+        results = []
+        try:
+            x, ok = brentsroot(f, [a, b], tol=(None if tolv is None else np.asarray(tolv, dtype=dt)))
+            results.append(("scalar-narrow", np.asarray(x), bool(ok), True))
+        except Exception:     # noqa
+            results.append(("scalar-narrow", np.asarray(np.nan), False, False))
+        try:
+            xs, oks = brentsrootvec([f, f], [np.array(a), np.array(b)], tol=(None if tolv is None else np.asarray(tolv, dtype=dt)))
+            results.append(("vec-narrow", np.asarray(xs[1]), bool(oks[1]), True))
+        except Exception:     # noqa
+            results.append(("vec-narrow", np.asarray(np.nan), False, False))
+        lo, hi = sorted((num.frac(a), num.frac(b)))
+        for variant, x, ok, ran in results:
+            rec = {"shape": c["shape"], "a": c["a"], "b": c["b"], "s": s, "tol": tolv, "dtype": dtn, "variant": variant,
+                   "signChange": True, "endZero": False, "anyRoot": True, "success": ok, "ran": ran, "inside": False, "gap": -1,
+                   "residualSmall": False, "endSmall": False, "agree": True}
+            if ran and np.isfinite(float(x)):
+                xf = num.frac(x)
+                rec["inside"] = bool(lo <= xf <= hi)
+                unit = tol_eff * max(Fraction(1), abs(xf))
+                rec["gap"] = int(min(num.CAP, math.ceil(abs(xf - Fraction(r8, 8)) / unit)))
+                rec["residualSmall"] = bool(exact_sign_and_small(c, s, x, tol_eff)[1])
+            out.append(rec)
     return out
 
 
